@@ -13,7 +13,8 @@ EXPLANATION = ('For every numeric option of every public grader / sampler / comp
                'value is the one supplied and that every other option carries its documented default. Cross-option rules (whitelist and '
                'blacklist, unordered lists with several subgraders, groupings, nested delimiters, name collisions, unsuppressed overrides, unknown '
                'keys) are decided with symbolic presence flags; answers normalisation, Cls(obj.config) == obj and kwargs/dict equivalence are '
-               'checked on a generated catalogue of answer formats.')
+               'checked on a generated catalogue of answer formats.'
+               ' NaN for every real-valued option with a bounded domain; 23 percentage texts (zero, negative, malformed, padded); list-answer lengths at both nesting levels as symbolic integers.')
 ASSUMPTIONS = ['numeric option values range over [-3,4] (reals) / -3..4 (integers); wrong-TYPE values are a finite generated catalogue, not symbolic',
                'the documented domains are those of docs/ and the class docstrings (oracle table in this file)']
 BOUNDS = {'quick': '45 numeric options x any value in range; 12 cross-option rules with all presence-flag combinations; 14 answer formats',
